@@ -253,19 +253,10 @@ Section Helpers.
         { destruct Hwf as [_ [_ [Ha|[_ Ha]]]]; lia. }
         destruct (@split_fused_spec N m s (coefs s) (am s) [] [] [] Hlen)
           as [ka [kc [out' [Hsp [Hlk [_ [_ [Hsub [Hout _]]]]]]]]].
-        rewrite Hsp in H. cbn in H.
+        rewrite Hsp in H. cbn [bind app] in H. fold (kept_head s ka kc) in H.
         apply (IH _ _ Hst) in H; [exact H|].
-        constructor; [|apply Forall_app; split; [exact Hn|]].
-        * destruct ka as [|l1 ka'].
-          -- right. destruct kc; [|discriminate]. split; [reflexivity|]. split; [reflexivity|].
-             cbn [exps]. apply wf_exps_ne; exact Hwf.
-          -- left. destruct Hwf as [Hr [[Hcne Hnz] Ha]].
-             unfold FSDefs.wf_shell, rect, nz_cols, am_ok in *; cbn [am coefs exps].
-             rewrite Forall_forall in Hr, Hnz. repeat split.
-             ++ apply Forall_forall; auto.
-             ++ destruct kc; discriminate.
-             ++ apply Forall_forall; auto.
-             ++ destruct ka' as [|l2 r]; [left; reflexivity | right; cbn in *; lia].
+        apply Forall_app; split; [|apply Forall_app; split; [exact Hn|]].
+        * apply wf_wfd. apply (@kept_head_wf N is0 s ka kc Hwf El Hlk Hsub).
         * eapply Forall_impl; [|exact Hout]. intros x Hx. left. eapply single_of_wf; eauto.
       + apply (IH _ _ Hst) in H; [exact H|].
         apply Forall_app; split; [exact Hn|]. constructor; [exact Hs1|constructor].
